@@ -130,7 +130,7 @@ def step_replay(sp, obl_fn, name):
     return replay
 
 
-def prove_list(R, sp, obl_fn, prefix="", extra_A=(), guard=None):
+def prove_list(R, sp, obl_fn, prefix="", extra_A=(), guard=None, internal=False):
     """obl_fn(st, act, ns, ts) -> [(name, V)].  guard: optional fn(st,act,ns,ts)->V ; obligations become guard => ob"""
     def full(st, act, ns, ts):
         obs = obl_fn(st, act, ns, ts) or []
@@ -143,7 +143,7 @@ def prove_list(R, sp, obl_fn, prefix="", extra_A=(), guard=None):
     assert len(set(names)) == len(names), f"duplicate obligation names in {prefix}: {[n for n in names if names.count(n) > 1][:3]}"
     A = sp.A + list(extra_A)
     for n, v in obs:
-        R.prove(n, A, v.term() if not v.conc else bool(v), replay=step_replay(sp, full, n))
+        R.prove(n, A, v.term() if not v.conc else bool(v), replay=step_replay(sp, full, n), internal=internal)
     return len(obs)
 
 
@@ -156,10 +156,45 @@ def is_last(st, act, ns, ts):
 
 
 # ------------------------------------------------------------------------------------------------ invariant induction
+def domain_closure(sp):
+    """obligation list: every integer element of S' lies in the range from which sym_state draws the same element of S.
+    The one-step induction quantifies over the harness DOMAIN (ranged fresh variables) intersected with Inv; it covers all reachable
+    states only if non-terminal successors stay inside that domain, which Inv alone need not say (Snake: Inv allowed step_count ==
+    time_limit while the domain stops at time_limit-1, so a seeded 'time limit tested on the stale counter' change produced a MID
+    state outside the domain and went unnoticed by C01)."""
+    ranged = []
+    open_ = set(getattr(sp.H, "OPEN_DOMAIN", ()))
+    for (path, leaf) in jax.tree_util.tree_leaves_with_path(sp.st, is_leaf=lambda x: isinstance(x, SV)):
+        if leaf.conc or leaf.dtype.kind not in "iu" or jax.tree_util.keystr(path) in open_:
+            continue
+        idx = [(i, sp.ctx.ranges.get(x.get_id())) for i, x in enumerate(leaf.a.reshape(-1)) if J.is_sym(x)]
+        idx = [(i, r) for i, r in idx if r is not None]
+        if idx:
+            ranged.append((jax.tree_util.keystr(path), idx))
+
+    def f(st, act, ns, ts):
+        post = {jax.tree_util.keystr(p): l for p, l in jax.tree_util.tree_leaves_with_path(ns, is_leaf=lambda x: isinstance(x, SV))}
+        out = []
+        for path, idx in ranged:
+            arr = vs(post[path])
+            flat = np.asarray(arr, dtype=object).reshape(-1) if not isinstance(arr, V) else np.array([arr], dtype=object)
+            lo, hi = min(r[0] for _, r in idx), max(r[1] for _, r in idx)
+            out.append((f"domain closure: S'{path} stays within the range the pre-state is drawn from [{lo}, {hi}]",
+                        all_([(flat[i] >= r[0]) & (flat[i] <= r[1]) for i, r in idx])))
+        return out
+    return f
+
+
 def inv_step(R, sp, prefix="Inv(S')"):
-    """Inv(S) and step not LAST  =>  Inv(S')   (one conjunct per query)"""
+    """Inv(S) and step not LAST  =>  Inv(S') and S' in the harness domain   (one conjunct per query)"""
     H = sp.H
-    return prove_list(R, sp, lambda st, act, ns, ts: H.inv(ns, None), prefix=prefix + ": ", guard=not_last)
+    n = prove_list(R, sp, lambda st, act, ns, ts: H.inv(ns, None), prefix=prefix + ": ", guard=not_last)
+    # soundness obligation of the harness (kind "internal": a failure is a harness error, never a VIOLATION).  Leaves listed in
+    # H.OPEN_DOMAIN are bounded by design (2048 tile exponents, PacMan's unbounded counters): states beyond are outside the claim.
+    n += prove_list(R, sp, domain_closure(sp), prefix=prefix + ": ", guard=not_last, internal=True)
+    if getattr(H, "OPEN_DOMAIN", None):
+        R.bound(open_domain=f"pre-state leaves {sorted(H.OPEN_DOMAIN)} are range-bounded by the harness and NOT closed under step: states beyond those ranges are outside the claim")
+    return n
 
 
 def inv_reset(R, H, nkeys=256, prove_inv=True):
@@ -187,7 +222,46 @@ def inv_reset(R, H, nkeys=256, prove_inv=True):
         return ctx, key, st, ts
     for n, v in obs:
         R.prove(n, A, v.term() if not v.conc else bool(v), replay=mk(n))
+    # the reset state must also lie in the domain the inductive step quantifies over (see domain_closure)
+    if True:
+        c0 = Ctx()
+        st0, _ = H.sym_state(c0)
+        post = {jax.tree_util.keystr(p): l for p, l in jax.tree_util.tree_leaves_with_path(st, is_leaf=lambda x: isinstance(x, SV))}
+        for (path, leaf) in jax.tree_util.tree_leaves_with_path(st0, is_leaf=lambda x: isinstance(x, SV)):
+            if leaf.conc or leaf.dtype.kind not in "iu":
+                continue
+            idx = [(i, c0.ranges.get(x.get_id())) for i, x in enumerate(leaf.a.reshape(-1)) if J.is_sym(x)]
+            idx = [(i, r) for i, r in idx if r is not None]
+            pth = jax.tree_util.keystr(path)
+            if pth in set(getattr(H, "OPEN_DOMAIN", ())):
+                continue
+            if not idx or pth not in post:
+                continue
+            arr = vs(post[pth])
+            flat = np.asarray(arr, dtype=object).reshape(-1) if not isinstance(arr, V) else np.array([arr], dtype=object)
+            v = all_([(flat[i] >= r[0]) & (flat[i] <= r[1]) for i, r in idx])
+            n = f"Inv(reset): domain: reset{pth} lies in the range the inductive pre-state is drawn from"
+            R.prove(n, A, v.term() if not v.conc else bool(v), replay=None, internal=True)
     return ctx, key, st, ts
+
+
+def escaped_domain(R):
+    """names of the domain-closure obligations of this job that the solver found satisfiable"""
+    return [o["name"] for o in R.obl if "domain closure" in o["name"] and o["result"] == "sat"]
+
+
+def escalate_two_steps(R, H, obl_fn, prefix="2 steps (escaped domain): "):
+    """When a non-terminal successor can leave the harness domain, the one-step induction no longer covers what happens next.
+    The property's obligations are then also instantiated on the SECOND step of a two-step unrolling from an arbitrary valid
+    state (first step any in-spec action, not LAST), so that a violation which needs the escaped state (e.g. an observation
+    step_count of time_limit + 1 after the limit test read a stale counter) is exhibited and replayed on the real code."""
+    from checks import bmc
+
+    def init(ctx):
+        st, pre = H.sym_state(ctx)
+        return st, list(pre) + assumed_inv(R, H, ctx, H.inv(st, ctx), list(pre))
+    R.note(f"{H.cfg}: domain not closed under step ({escaped_domain(R)[:2]}): obligations re-run on a two-step unrolling")
+    return bmc.run(R, H, obl_fn, depth=2, init=init, prefix=prefix)
 
 
 # ------------------------------------------------------------------------------------------------ C01 bounds
